@@ -66,6 +66,22 @@ for _b in (0x01, 0x09, 0x0b, 0x0c, 0x1a, 0x1b, 0x7f, 0x80, 0xa0, 0xc3, 0xfe, 0xf
     PROGRAMS.append(("byte-%02x-block-comment-line-start" % _b, b'print "x"; /* c\n' + _c + b' d */\nprint "next";\n'))
     PROGRAMS.append(("byte-%02x-last-byte" % _b, b'print "x"; #' + _c))
     PROGRAMS.append(("byte-%02x-bare" % _b, b'print "x";\n' + _c + b'\nprint "next";\n'))
+# compile errors at a known place: the offending token starts at a (line, column) computed here from the text (lines count from 1,
+# columns from 1, a tab is one column, comments and strings before the token may span lines)
+POS_EXPECT = {}
+_prefixes = [("none", ""), ("line", "a = 1;\n"), ("block-comment", "/* c1\n c2 */ "), ("inline-comment", "a = 1; /* x */ "), ("line-comment", "// line\n"),
+             ("multi-line-string", 's = "l1\nl2";\n'), ("tab", "\t  "), ("blank-lines", "a = 1;\n\n\n"), ("two-comments", "/* a */ /* b\n\n*/\n  "),
+             ("directive-line", "# hash\n"), ("nested-text", "for i in 1 to 2 loop\n  /* c */ print i;\n")]
+_errors = [("undefined", "zz = nosuch9;", "nosuch9"), ("operator", "zz = 1 +;", "+;"), ("paren", 'print "a" );', ");")]
+for _pn, _pt in _prefixes:
+    for _en, _et, _mk in _errors:
+        _text = _pt + _et + ("\nend loop;" if _pn == "nested-text" else "") + "\n"
+        _off = len(_pt) + _et.index(_mk) + (1 if _mk in ("+;",) else 0)
+        _line = _text.count("\n", 0, _off) + 1
+        _colm = _off - (_text.rfind("\n", 0, _off) + 1) + 1
+        _name = "pos-%s-%s" % (_pn, _en)
+        PROGRAMS.append((_name, _text))
+        POS_EXPECT[_name] = (_line, _colm)
 ARGS = ["", "a b", '"q"', "é", "-x", "--out=z", "-", "-e", "-i", "--parse"]
 
 
@@ -135,7 +151,7 @@ def reference(programs, argvecs):
     cases = []
     for pi, (name, text) in enumerate(programs):
         for ai, av in enumerate(argvecs):
-            if name.startswith("byte-") and av:
+            if name.startswith(("byte-", "pos-")) and av:
                 continue
             ops = [op_ctx(0, True)]
             build_arg = '$ARG = tab(0, "");'
@@ -253,7 +269,7 @@ def run(tier):
         with open(path, "wb") as f:
             f.write(tb(text))
         for ai, av in enumerate(argvecs):
-            if name.startswith("byte-") and av:
+            if name.startswith(("byte-", "pos-")) and av:
                 continue
             for mode in ("file", "stdin", "out"):
                 if tier != "thorough" and mode != "file" and len(av) == 1 and ai % 2:
@@ -306,6 +322,9 @@ def run(tier):
             want = "Error (%s:%s): %s" % (step.get("line"), step.get("col"), step.get("msg"))
             if want.encode() not in err:
                 col.viol("compile-error-message:%s" % name, "%s: stderr %r, expected %r" % (where, err[:300], want), det)
+            if name in POS_EXPECT and ("Error (%d:%d):" % POS_EXPECT[name]).encode() not in err:
+                col.viol("compile-error-position:%s" % name.split("-")[1], "%s: stderr %r, the offending token starts at line %d column %d" % (
+                    where, err[:200], POS_EXPECT[name][0], POS_EXPECT[name][1]), det)
             if sel:
                 col.viol("output:%s" % name, "%s: output %r although the program did not compile" % (where, sel[:200]), det)
         elif r == "rerr":
